@@ -1108,16 +1108,16 @@ def generate(ctx):
 def model(ctx):
     thorough = ctx.tier == 'thorough'
     ctx.model_must_hold('MC_C19', 'MC_C19.cfg', env={'MC_TIER': ctx.tier, 'MC_PART': 'main', 'MC_MUT': 'none'},
-                        timeout=3000 if thorough else 600, workers=8, xmx='6g')
+                        timeout=3600 if thorough else 1500, workers=8, xmx='6g')
     # regression model: the block-offset accumulation of utils.bmat before the repair must be refuted by TLC
     old = ctx.tlc_model('MC_C19', 'MC_C19_bmat_old.cfg', env={'MC_TIER': ctx.tier, 'MC_PART': 'bmat_old', 'MC_MUT': 'none'},
-                        timeout=600, workers=2, xmx='6g', label='regression model: pre-fix bmat block offsets (violation expected)')
+                        timeout=1200, workers=2, xmx='6g', label='regression model: pre-fix bmat block offsets (violation expected)')
     ctx.notes['old_bmat_offsets_refuted_by_tlc'] = bool(old['violated'])
     if not old['violated']:
         raise MachineryError('the pre-repair bmat block offsets were not refuted by TLC (MC_C19_bmat_old.cfg)')
     rejected = {}
     for mut in ('vecswap', 'addfirst'):
-        r = ctx.tlc_model('MC_C19', 'MC_C19.cfg', env={'MC_TIER': 'quick', 'MC_PART': 'main', 'MC_MUT': mut}, timeout=600,
+        r = ctx.tlc_model('MC_C19', 'MC_C19.cfg', env={'MC_TIER': 'quick', 'MC_PART': 'main', 'MC_MUT': mut}, timeout=1200,
                           workers=4, xmx='6g', label=f'seeded model deviation {mut} (violation expected)')
         rejected[mut] = bool(r['violated'])
     ctx.notes['model_deviations_rejected'] = rejected
